@@ -464,4 +464,60 @@ theorem none_if_part_lost (s : Mpp) (hs : Reachable s) (h : Nat) (q : Part) (hq 
       obtain ⟨known, rfl⟩ := fulfil_only_from_claim s1 op i hm
       exact Short.claim_none hreach.inv hshort known i hm
 
+/-! ## non-vacuity: concrete instances of every hypothesis and outcome used above -/
+
+/-- a toy `PayCrypto` that satisfies `Wf` (only for non-vacuity; the driver uses the real primitives) -/
+def toyCrypto : PayCrypto where
+  mac := fun k m => ((k ++ m) ++ List.replicate 32 0).take 32
+  enc := fun _ _ d => d
+  hash := fun b => b
+
+private theorem toyWf : toyCrypto.Wf :=
+  ⟨by intro k m; simp [toyCrypto, List.length_take]; omega, by intro k iv d; rfl, by intro k iv d; rfl⟩
+
+def toyKeys : Keys := ⟨[1], [2], [3], [4], [5]⟩
+
+example : Admissible 3600 1700000000 (some 18) := ⟨by decide, by intro d hd; cases hd; decide⟩
+example : (create toyCrypto toyKeys (some 1000) 3600 (List.replicate 16 7) 1700000000 (some 18) none).isSome = true := by decide
+example : constructInfo (some (MAX_VALUE_MSAT + 1)) .ldkHash 3600 1700000000 none = none := by decide
+example : constructInfo (some MAX_VALUE_MSAT) .ldkHash 3600 1700000000 none ≠ none := by decide
+example : constructInfo none .userHashCltv 0 (2 ^ 48 - 7200) (some 18) = none ∧
+    constructInfo none .userHashCltv 0 (2 ^ 48 - 7201) (some 18) ≠ none := by decide
+
+def okWith (r : Except VerifyErr VerifyOk) (c : Option Nat) (md : Option Bytes) : Bool :=
+  match r with | .ok v => v.minFinalCltv == c && v.metadata == md && v.preimage.isSome | .error _ => false
+def errIs (r : Except VerifyErr VerifyOk) (e : VerifyErr) : Bool :=
+  match r with | .ok _ => false | .error x => x == e
+
+/-- one concrete create → verify: accepted at the minimum and at the expiry, refused one below / one
+    after; a changed hash is refused as such whatever the amount and the time -/
+example :
+    (create toyCrypto toyKeys (some 1000) 3600 (List.replicate 16 7) 1700000000 (some 18) (some [9, 9])).any
+      (fun (h, sec, md) =>
+        okWith (verify toyCrypto toyKeys h sec 1000 md (1700000000 + 3600 + 7200)) (some 18) (some [9, 9]) &&
+        errIs (verify toyCrypto toyKeys h sec 999 md 1700000000) .amountTooLow &&
+        errIs (verify toyCrypto toyKeys h sec 1000 md (1700000000 + 3600 + 7201)) .expired &&
+        errIs (verify toyCrypto toyKeys (0 :: h) sec 1000 md 1700000000) .badMac &&
+        errIs (verify toyCrypto toyKeys (0 :: h) sec 0 md (2 ^ 60)) .badMac) = true := by decide
+
+-- the accumulator: two parts complete a 1000-msat payment (deadline = min cltv − 39), blocks below
+-- the deadline change nothing, the claim fulfils both parts
+example : (run Mpp.init [.part 1 600 600 1000 500 1 false, .tick]).2 = [.failPart 1] := by decide
+example : (run Mpp.init [.part 2 600 600 1000 500 1 false, .part 1 400 400 1000 480 1 false,
+      .part 3 10 10 1000 500 1 false, .tick, .block 440, .claim false]).2 =
+    [.claimable 1000 441, .failPart 3, .fulfilPart 1, .fulfilPart 2, .claimed 1000] := by decide
+-- at the deadline the part with the smallest expiry is failed; the claim then releases nothing
+example : (run Mpp.init [.part 2 600 600 1000 500 1 false, .part 1 400 400 1000 480 1 false,
+      .block 441, .claim false]).2 = [.claimable 1000 441, .failPart 1] := by decide
+example : Quiet 441 (.block 440) ∧ ¬ Quiet 441 (.block 441) := by simp [Quiet]
+-- onion-field mismatch, over-payment bound, even TLVs with the plain claim
+example : (run Mpp.init [.part 1 600 600 1000 500 1 false, .part 2 400 400 999 500 1 false]).2 = [.failPart 2] := by decide
+example : (run Mpp.init [.part 1 600 600 1000 500 1 true, .part 2 400 400 1000 500 1 true, .claim false]).2 =
+    [.claimable 1000 461, .failPart 1, .failPart 2] := by decide
+example : (run Mpp.init [.part 1 5 5 (MAX_VALUE_MSAT + 9) 500 1 false, .part 2 MAX_VALUE_MSAT MAX_VALUE_MSAT (MAX_VALUE_MSAT + 9) 500 1 false]).2 =
+    [.failPart 2] := by decide
+-- the "should not be reachable" branch of claim_payment_internal is reachable in the model
+example : (run Mpp.init [.part 1 600 600 1000 500 1 false, .part 2 400 400 1000 480 1 false, .block 441,
+      .part 3 100 100 1000 600 1 false, .claim false]).2 = [.claimable 1000 441, .failPart 2, .inconsistent] := by decide
+
 end Ldk.C04
